@@ -54,7 +54,7 @@ class History:
         import physt
 
         rng = self.rng
-        kind = rng.choice(["1d_static", "1d_static", "1d_adaptive", "1d_adaptive", "2d_static", "2d_adaptive", "3d_static", "1d_gapped"])
+        kind = rng.choice(["1d_static", "1d_static", "1d_adaptive", "1d_adaptive", "2d_static", "2d_adaptive", "3d_static", "1d_gapped", "1d_fixed", "2d_fixed"])
         n = rng.randint(0, 25)
         try:
             if kind == "1d_static" or kind == "1d_gapped":
@@ -84,6 +84,15 @@ class History:
                 if rng.random() < 0.3 and n:
                     kw["weights"] = np.asarray([rng.randint(0, 16) / 4 for _ in range(n)])
                 h = physt.h1(np.asarray(data) if n else None, "fixed_width", bin_width=w, adaptive=True, **kw)
+            elif kind == "1d_fixed":
+                # fixed-width bins that are not adaptive (yet): set_adaptive(True) may come later in the history
+                w = rng.choice([0.5, 1.0, 2.5])
+                data = [rng.uniform(-5, 5) for _ in range(max(n, 1))]
+                h = physt.h1(np.asarray(data), "fixed_width", bin_width=w)
+            elif kind == "2d_fixed":
+                w = [rng.choice([0.5, 1.0, 2.5]) for _ in range(2)]
+                rows = np.array([[rng.uniform(-4, 4), rng.uniform(-4, 4)] for _ in range(max(n, 1))])
+                h = physt.h(rows, "fixed_width", bin_width=w, axis_names=["u", "v"])
             elif kind in ("2d_static", "3d_static"):
                 d = 2 if kind == "2d_static" else 3
                 pr = [gen.pairs_from_edges(gen.edges(rng, rng.randint(1, 4))) for _ in range(d)]
@@ -183,7 +192,9 @@ class History:
                     if n >= 1:
                         r = h[rng.randrange(n)] if rng.random() < 0.5 else h[0:max(1, n - 1)]
             elif op == "projection":
-                axes = rng.sample(range(h.ndim), rng.randint(1, h.ndim - 1))
+                # proper subsets and (legal but unusual) all axes, in any order
+                k = h.ndim if rng.random() < 0.2 else rng.randint(1, h.ndim - 1)
+                axes = rng.sample(range(h.ndim), k)
                 r = h.projection(*axes)
             elif op == "select_int":
                 ax = rng.randrange(h.ndim)
@@ -217,6 +228,8 @@ class History:
         ops = ["fill", "fill", "fill_n", "fill_n", "fill_w", "fill_n_w", "imul", "idiv", "iadd_copy", "iadd_peer", "set_dtype", "normalize_inplace", "merge_inplace", "meta", "isub"]
         if h.is_adaptive():
             ops += ["fill_grow", "fill_n_grow", "fill_grow", "iadd_grown"]
+        elif all(type(b).__name__ == "FixedWidthBinning" for b in h.binnings):
+            ops += ["set_adaptive", "set_adaptive", "set_adaptive"]
         op = rng.choice(ops)
         try:
             if op in ("fill", "fill_w", "fill_grow"):
@@ -238,6 +251,11 @@ class History:
                     h.fill_n(arg)
                 if op == "fill_n_grow" and n:
                     self.stats["grow"] += 1
+            elif op == "set_adaptive":
+                h.set_adaptive(True)  # from now on fills may grow the bins of this object (and of nothing else)
+                v = self.values_for(h, 2, grow=True)
+                h.fill_n(v[:, 0] if h.ndim == 1 else v)
+                self.stats["grow"] += 1
             elif op == "imul":
                 h *= rng.choice([2, 0.5, 3.0, 2, 1000, 300])
             elif op == "iadd_peer":
